@@ -772,6 +772,50 @@ def _sc_mixed_unfuse(rng, sym, cfg):
                 describe=dict(sym=sym, op='mixed_unfuse', groups=groups, mgroups=mgroups, perm=qperm if use_perm else None, trans=a.trans))
 
 
+def _sc_disjoint_fused(rng, sym, cfg):
+    """contraction over hard-fused legs whose histories share an effective charge with DISJOINT internal content of equal dimension
+    (a holds (0,q)->q, b holds (q,0)->q) while another shared charge matches completely: the disjoint sector must contribute nothing"""
+    zero = tuple(cfg.sym.zero())
+    q = zero
+    for _ in range(20):
+        q = rcharge(rng, sym)
+        if q != zero:
+            break
+    if q == zero:
+        raise Skip('no non-zero charge drawn')
+    d = rng.randint(1, 2)
+    s1 = rng.choice([1, -1])
+    both = sorted([zero, q])
+    la1 = yastn.Leg(cfg, s=s1, t=[zero], D=[d])
+    la2 = yastn.Leg(cfg, s=s1, t=both, D=[d, d])
+    lb1 = yastn.Leg(cfg, s=-s1, t=both, D=[d, d])
+    lb2 = yastn.Leg(cfg, s=-s1, t=[zero], D=[d])
+    nq = tuple(int(v) for v in np.atleast_1d(cfg.sym.add_charges(q, signatures=(-1,), new_signature=1)))
+    ts3 = sorted({zero, q, nq})
+    x = yastn.Leg(cfg, s=rng.choice([1, -1]), t=ts3, D=[rng.randint(1, 2) for _ in ts3])
+    y = yastn.Leg(cfg, s=rng.choice([1, -1]), t=ts3, D=[rng.randint(1, 2) for _ in ts3])
+    a = rtensor(rng, cfg, [x, la1, la2], n=rng.choice([zero, q, nq]))
+    b = rtensor(rng, cfg, [lb1, lb2, y], n=rng.choice([zero, q, nq]))
+    if a.size == 0 or b.size == 0:
+        raise Skip('empty operand')
+    mode = rng.choice(['hard', 'hard', 'meta'])
+    what = rng.choice(['dot', 'dot', 'trace'])
+
+    def fn():
+        fa = a.fuse_legs(axes=(0, (1, 2)), mode=mode)
+        fb = b.fuse_legs(axes=((0, 1), 2), mode=mode)
+        if what == 'dot':
+            return yastn.tensordot(fa, fb, axes=(1, 0))
+        t = yastn.tensordot(fa, fb, axes=((), ()))          # x F F' y
+        return t.trace(axes=(1, 2))
+
+    def oracle(c):
+        u1 = yastn.legs_union(la1, lb1.conj()); u2 = yastn.legs_union(la2, lb2.conj())
+        da = dense(a, {0: x, 1: u1, 2: u2}); db = dense(b, {0: u1.conj(), 1: u2.conj(), 2: y})
+        return dict(dense=np.tensordot(da, db, axes=((1, 2), (0, 1))), legs={0: x, 1: y}, n=cfg.sym.add_charges(a.n, b.n))
+    return dict(fn=fn, oracle=oracle, operands=[a, b], describe=dict(sym=sym, op='disjoint_fused', mode=mode, what=what, q=q, d=d))
+
+
 def sc_fuse(rng, opts):
     """fuse (hard/meta, nested) ; unfuse restores; operations over fused legs equal operations over original legs"""
     sym, cfg = pick_cfg(rng, opts)
@@ -794,6 +838,8 @@ def sc_fuse(rng, opts):
     op = rng.choice(['roundtrip', 'norm', 'dense', 'dot', 'add', 'vdot', 'roundtrip_transposed', 'roundtrip_transposed', 'add_transposed', 'add_transposed', 'add3', 'mixed_unfuse', 'mixed_unfuse'])
     if op == 'mixed_unfuse' and not opts.get('mode'):
         return _sc_mixed_unfuse(rng, sym, cfg)
+    if op in ('add3', 'vdot', 'norm') and sym != 'dense' and not opts.get('mode') and rng.random() < 0.5:
+        return _sc_disjoint_fused(rng, sym, cfg)
     flat = [x for g in groups for x in (g if isinstance(g, tuple) else (g,))]
     qperm = list(range(len(groups))); rng.shuffle(qperm)
     consume_first = rng.random() < 0.3
